@@ -121,7 +121,7 @@ def tasks(tier, seed, selftest=False):
         rest = paths[nsmall:]
         for i in range(0, len(rest), 8):
             T.append({"prop": PROP, "family": "-", "label": "models/minimal-space-expansion", "timebox": 20, "seed": seed,
-                      "params": {"mode": "models", "models": rest[i:i + 8], "strats": ["min"]}})
+                      "params": {"mode": "models", "models": rest[i:i + 8], "strats": ["min", "block"]}})
     return T
 
 
@@ -132,7 +132,7 @@ def main(tier, seed, t0, selftest=False):
                                  "families": "U2 exhaustive for K=1; D3/B21 slices (quick); U3, B22, CH4, S2C2 (thorough, time-boxed cubes)",
                                  "options": "block: maa/optsrc/exact flags symbolic; scc: maa flag; min: skip_ignored flag",
                                  "limits": f"-1(None)..{hist.MAXLIM}",
-                                 "published models": "models/bbm-bnet-inputs-true: quick = 90 smallest models x {minimal-space, bfs, dfs, block, scc, attractor-seed} expansion + minimal-space expansion on all others; thorough = every strategy on every model; runs that stop at their size limit (bfs/dfs 150 nodes, others 400) or exceed the task's time cap report nothing and are counted; per run z3 decides over all subspaces: reported spaces closed, none contains a smaller trap space, no trap space avoids all of them"},
+                                 "published models": "models/bbm-bnet-inputs-true: quick = 90 smallest models x {minimal-space, bfs, dfs, block, scc, attractor-seed} expansion + minimal-space and block expansion on all others; thorough = every strategy on every model; runs that stop at their size limit (bfs/dfs 150 nodes, others 400) or exceed the task's time cap report nothing and are counted; per run z3 decides over all subspaces: reported spaces closed, none contains a smaller trap space, no trap space avoids all of them"},
                          assumptions=["published models: the library's Petri net of the model is the trap-space characterisation used by z3; its equivalence with the update functions over all states is decided per model by C10",
                                       "contract stubs of DESIGN.md §8 validated on every representative",
                                       "compute_attractors_symbolic is a region oracle specified by REACH (decided by C12)"])
